@@ -236,7 +236,7 @@ func writeGroupIni(cmd *Command, group *Group, namespace string, writer io.Write
 		}
 
 		if comments && len(option.Description) != 0 {
-			fmt.Fprintf(writer, "; %s\n", option.Description)
+			fmt.Fprintf(writer, "; %s\n", strings.Replace(option.Description, "\n", "\n; ", -1))
 		}
 
 		oname := optionIniName(option)
